@@ -42,6 +42,7 @@ type Worker struct {
 	afterInit func()
 	stripped  bool
 	schedule  []string
+	refDirty  [][2]string // (class, checker): process-wide state changed by a reference run
 	ref       *Corpus // independent second load, used only by the reference model
 	refTable  *RefTable
 	infos     []*linter.CheckerInfo
